@@ -142,7 +142,7 @@ def run_one(ctl: explorer.Ctl, cfg: Dict[str, Any]) -> Dict[str, Any]:
     if status != "ok":
         obs["outcome"] = status
         viol.append({"sig": {"class": "did-not-finish", "status": status},
-                     "msg": f"items={names}: execution ended with {status}: {val!r}"})
+                     "msg": f"items={names}: execution ended with {status}: {core.clean_repr(val)}"})
         obs["violations"] = viol
         return obs
     if info.get("spawned") != 1:
@@ -232,7 +232,7 @@ def run_interference(ctl: explorer.Ctl, cfg: Dict[str, Any]) -> Dict[str, Any]:
     viol: List[dict] = []
     tag = {"size": "large" if n > 65536 else "small"}
     if status != "ok":
-        return {"outcome": status, "violations": [{"sig": {"class": "did-not-finish", **tag}, "msg": f"cfg={cfg}: {status} {val!r}"}]}
+        return {"outcome": status, "violations": [{"sig": {"class": "did-not-finish", **tag}, "msg": f"cfg={cfg}: {status} {core.clean_repr(val)}"}]}
     data = bytes(proc.stdin.data)
     lines = data.split(b"\n")
     tail, lines = lines[-1], lines[:-1]
@@ -296,7 +296,7 @@ def run_send_json(ctl: explorer.Ctl, cfg: Dict[str, Any]) -> Dict[str, Any]:
     names = [f"{t[0]}@{via}" for t, via in seq]
     viol: List[dict] = []
     if status != "ok":
-        return {"outcome": status, "violations": [{"sig": {"class": "did-not-finish", "part": "send_json"}, "msg": f"{names}: {status} {val!r}"}]}
+        return {"outcome": status, "violations": [{"sig": {"class": "did-not-finish", "part": "send_json"}, "msg": f"{names}: {status} {core.clean_repr(val)}"}]}
     expected = [t[2] for t, via in seq if t[2] is not None]
     lines = bytes(proc.stdin.data).split(b"\n")[:-1]
     try:
